@@ -164,6 +164,25 @@ Theorem C07_interface_reappears_probes_anew :
     (1001848, false, true, false); (1002848, false, true, false) ].
 Proof. exact w_toggle_accepted. Qed.
 
+(* Formerly findings of round 2, now holding: an announcement that add_interface makes is repeated
+   one second later (fix 4b0055d) ... *)
+Theorem C07_interface_added_announced_twice :
+  self7 w_added_twice_ifs w_added_twice_its = [] /\
+  busy (timeline w_added_twice_ifs w_added_twice_its) =
+  [ (1000000, false, true, false); (1001000, false, true, false);
+    (1002600, false, true, false); (1003600, false, true, false) ].
+Proof. exact w_added_twice_accepted. Qed.
+
+(* ... and probes that a pending second announcement starts on a registry re-created in between are
+   sent when due (fix 2ff6a49): chk_C07's wake-up clause has no exception any more. *)
+Theorem C07_probes_started_by_resend_are_sent :
+  self7 w_resend_probes_ifs w_resend_probes_its = [] /\
+  busy (timeline w_resend_probes_ifs w_resend_probes_its) =
+  [ (1000145, true, false, false); (1000395, true, false, false); (1000645, true, false, false);
+    (1000895, false, true, false);
+    (1001993, true, false, false); (1002243, true, false, false); (1002493, true, false, false) ].
+Proof. exact w_resend_probes_accepted. Qed.
+
 (* History level, full statement (validated on every generated history by running chk_C07 on the
    model's own observation, NOT proved):
      forall ifs its, well-formed history -> no VFail in chk_C07 g7_init (d_init ifs) its (model_obs (d_init ifs) its).
@@ -200,4 +219,6 @@ Print Assumptions C07_three_probes_on_late_schedules_refuted.
 Print Assumptions C07_record_joining_a_probe_refuted.
 Print Assumptions C07_reprobe_after_host_rename.
 Print Assumptions C07_interface_reappears_probes_anew.
+Print Assumptions C07_interface_added_announced_twice.
+Print Assumptions C07_probes_started_by_resend_are_sent.
 Print Assumptions C07_exact_run.
